@@ -1252,7 +1252,11 @@ func (c *FCtx) afterAsserts(st *State, s ast.Stmt) {
 		for _, ak := range c.fi.Anchors[s0] {
 			if g, ok := c.ghosts[ak]; ok {
 				id := st.vars[g]
-				st.cells[id] = boolSV(True())
+				if old, ok := st.cells[id].(SV); ok {
+					st.cells[id] = intSV(Add(old.T, Num(1)))
+				} else {
+					st.cells[id] = intSV(Num(1))
+				}
 				st.written[id] = true
 			}
 		}
